@@ -8,7 +8,8 @@
 The grammar mirrors coq/Model/Enum.v: named integer types of the ten kinds,
 const blocks of value specs (iota, iota+k, iota*m+k, k-iota, 1<<iota,
 1<<(iota-1), explicit literals incl. negative and the extremes of the kind,
-references to earlier constants of the block, multi-name specs, carried-down
+references to earlier constants of the block, aliases (several constants with one
+value), multi-name specs, carried-down
 specs, `_` placeholders, untyped interloper specs that reset the carried type,
 specs of other types in the same block, specs of a non-identifier (qualified)
 type and specs carried down from them), several blocks and files, prefixed / unprefixed / near-miss names,
@@ -468,6 +469,7 @@ class Builder:
         self.names = Names(rng, [t for t, _ in spec.types])
         self.used = {t: set() for t, _ in spec.types}       # values per type
         self.bit_types = set()
+        self.aliases = rng.random() < 0.3       # this package declares aliases (several constants with one value)
 
     def eval_block(self, specs):
         """[(name, value, ctype)] of a self-contained block (refs only to its own earlier constants)"""
@@ -478,13 +480,13 @@ class Builder:
         p.files = [f]
         return p.const_env()
 
-    def accept(self, specs):
-        """check a candidate block: distinct in-range values per type; commit its values"""
+    def accept(self, specs, allow_dup=False):
+        """check a candidate block: in-range values, distinct per type unless aliases are wanted; commit"""
         ents = self.eval_block(specs)
         seen = {t: set() for t in self.used}
         for n, v, ct in ents:
             if ct is not None and ct[0] == "named":
-                if v in self.used[ct[1]] or v in seen[ct[1]]:
+                if (v in self.used[ct[1]] or v in seen[ct[1]]) and not allow_dup:
                     raise EvalError("dup")
                 seen[ct[1]].add(v)
         for t in seen:
@@ -576,6 +578,13 @@ class Builder:
             nm = self.names.fresh(T)
             specs.append(VSpec([nm], ("ident", T), [e]))
             mine.append(nm)
+            if self.aliases and rng.random() < 0.3:
+                # an alias: a second constant with the value of an earlier one (by reference or by the same
+                # expression); the value is listed once, under its FIRST declared name
+                a = rng.choice(mine)
+                ae = ("ref", a) if rng.random() < 0.7 else e
+                specs.append(VSpec([self.names.fresh(T)], ("ident", T), [ae]))
+                feats.add("alias")
             if rng.random() < 0.1:
                 specs.append(VSpec(["_"], None, []))
                 feats.add("blank")
@@ -688,7 +697,7 @@ def gen_plain_type(b, T, rng):
                 specs, f = b.blk_multi(T, max(1, n // 2))
             else:
                 specs, f = b.blk_single(T)
-            ents = b.accept(specs)
+            ents = b.accept(specs, allow_dup=b.aliases)
         except EvalError:
             b.names.used, b.names.trimmed = snap
             continue
@@ -798,7 +807,9 @@ def _gen_enum_pkg(rng, name, profile, max_hb, allow_gorm):
     for T, _ in spec.types:
         vals = [v for _, v in decl[T]]
         if len(set(vals)) != len(vals):
-            raise EvalError("dup values")
+            if not b.aliases:
+                raise EvalError("dup values")
+            spec.features.add("alias")
         tr = [trim(n, T) for n, _ in decl[T]]
         if len(set(tr)) != len(tr):
             raise EvalError("dup trimmed")
